@@ -37,13 +37,35 @@ SPEC = {
 NAMED = ('-n', '-m', '-s', '-a', '-e', '-d', '-R', '-u', '-M', '-r', '-c', '-w', '-f', '-L')
 
 
-def parser_table(mfn):
+def parser_table(mfn, extra_consts=None):
     """every add_argument call of main(): list of dict(flags, dest, type, default, action, node)"""
     out = []
     for n in ast.walk(mfn):
         if isinstance(n, ast.Call) and isinstance(n.func, ast.Attribute) and n.func.attr == 'add_argument':
             flags = [a.value for a in n.args if isinstance(a, ast.Constant) and isinstance(a.value, str)]
-            kw = {k.arg: k.value for k in n.keywords}
+            kw = {k.arg: k.value for k in n.keywords if k.arg is not None}
+            for k in n.keywords:
+                if k.arg is None:
+                    # **name : a dict literal / dict(...) bound to that name in main() (or at module level)
+                    src = None
+                    if isinstance(k.value, ast.Dict):
+                        src = k.value
+                    elif isinstance(k.value, ast.Name):
+                        for m_ in ast.walk(mfn):
+                            if isinstance(m_, ast.Assign) and any(isinstance(t, ast.Name) and t.id == k.value.id for t in m_.targets):
+                                src = m_.value
+                        if src is None and extra_consts and k.value.id in extra_consts:
+                            src = extra_consts[k.value.id]
+                    if isinstance(src, ast.Dict):
+                        for kk, vv in zip(src.keys, src.values):
+                            if isinstance(kk, ast.Constant) and kk.value not in kw:
+                                kw[kk.value] = vv
+                    elif isinstance(src, ast.Call) and isinstance(src.func, ast.Name) and src.func.id == 'dict':
+                        for kk in src.keywords:
+                            if kk.arg and kk.arg not in kw:
+                                kw[kk.arg] = kk.value
+                    else:
+                        kw['__unresolved__'] = k.value
             dest = kw['dest'].value if 'dest' in kw and isinstance(kw['dest'], ast.Constant) else None
             if dest is None and flags:
                 longs = [f for f in flags if f.startswith('--')]
@@ -60,7 +82,7 @@ def parser_table(mfn):
                 default = False
             elif action is None:
                 default = None
-            out.append(dict(flags=flags, dest=dest, type=typ if typ else ('store_true' if action == 'store_true' else None), default=default, action=action, node=n))
+            out.append(dict(flags=flags, dest=dest, type=typ if typ else ('store_true' if action == 'store_true' else None), default=default, action=action, node=n, unresolved='__unresolved__' in kw))
     return out
 
 
@@ -126,7 +148,7 @@ def qr(t):
 def check(repo, rep):
     cx = Ctx(repo)
     mfn = cx.fn('cmdline', 'main')
-    tab = parser_table(mfn)
+    tab = parser_table(mfn, cx.model.mods['cmdline']['consts'])
     rep.floor('add_argument calls', len(tab), 33)
     byflag = {}
     for row in tab:
@@ -186,10 +208,26 @@ def check(repo, rep):
             continue
         where = cx.where('cmdline', row['node'])
         dest = row['dest']
+        if row.get('unresolved'):
+            rep.unknown('option %s: add_argument uses **kwargs that could not be resolved' % flag)
+            continue
         # chain
         for km in keymap_all:
             val = km.get((grp, key))
             uses = sorted({x[2] for x in walk(val) if x[0] == 'attr' and x[1] == ns}) if val is not None else []
+            opaque = False
+            if val is not None:
+                for x in walk(val):
+                    if x[0] == 'call' and x[1][0] == 'g' and any(a == ns for a in x[2]):
+                        lk = cx.model.lookup(x[1])
+                        if lk and lk[0] == 'func':
+                            pn = lk[1].args.args[list(x[2]).index(ns)].arg if len(lk[1].args.args) > list(x[2]).index(ns) else None
+                            uses = sorted(set(uses) | {n_.attr for n_ in ast.walk(lk[1]) if isinstance(n_, ast.Attribute) and isinstance(n_.value, ast.Name) and n_.value.id == pn})
+                        else:
+                            opaque = True
+            if opaque:
+                rep.unknown('make_kwargs: value of %s[%r] is computed by a helper that could not be resolved' % (grp, key))
+                continue
             ok = val is not None and uses == [dest]
             extra = ''
             if val is not None and uses and uses != [dest]:
@@ -254,9 +292,10 @@ def check(repo, rep):
     # main wires the three groups into initialize_workers
     iw = [n for n in ast.walk(mfn) if isinstance(n, ast.Call) and ast.unparse(n.func).endswith('initialize_workers')]
     okw = False
+    mk_vars = {t.id for n in ast.walk(mfn) if isinstance(n, ast.Assign) and isinstance(n.value, ast.Call) and ast.unparse(n.value.func).endswith('make_kwargs') for t in n.targets if isinstance(t, ast.Name)}
     for c in iw:
-        stars = sorted(ast.unparse(k.value) for k in c.keywords if k.arg is None)
-        okw = stars == sorted('kwargs.%s' % g for g in groups_fields)
+        stars = [k.value for k in c.keywords if k.arg is None]
+        okw = len(stars) == len(groups_fields) and all(isinstance(v, ast.Attribute) and isinstance(v.value, ast.Name) and v.value.id in mk_vars for v in stars) and sorted(v.attr for v in stars) == sorted(groups_fields)
     rep.ob('main() hands all keyword groups of make_kwargs to initialize_workers', okw, cx.where('cmdline', mfn), 'main:initialize_workers-args')
     # ---------------------------------------------------------------- -q <-> no PrintWorker ; print format / time format reach the PrintWorker
     il = cx.leaves('cmdline_util', 'initialize_workers')
@@ -449,7 +488,14 @@ def check(repo, rep):
     # use_channel: numeric strings become ints
     for km in keymap_all:
         v = km.get(('io', 'use_channel'))
-        if v is not None:
+        if v is not None and v[0] == 'call' and v[1][0] == 'g' and cx.model.lookup(v[1]) and cx.model.lookup(v[1])[0] == 'func' and ns in v[2]:
+            hf = cx.model.lookup(v[1])[1]
+            hp = ('p', hf.args.args[list(v[2]).index(ns)].arg)
+            hvals = [l.value for l in cx.sx.run(v[1][1], hf) if l.outcome == 'return']
+            d_ = byflag['-u']['dest']
+            ok = bool(hvals) and all(hv in (('attr', hp, d_), ('call', ('b', 'int'), (('attr', hp, d_),), ())) for hv in hvals)
+            rep.ob('-u is passed as int when numeric, else as given', ok, cx.where('cmdline_util', kfn), 'make_kwargs:use_channel', 'helper %s returns %s' % (v[1][2], [show(h)[:50] for h in hvals]))
+        elif v is not None:
             ok = v == ('attr', ns, byflag['-u']['dest']) or v == ('call', ('b', 'int'), (('attr', ns, byflag['-u']['dest']),), ())
             rep.ob('-u is passed as int when numeric, else as given', ok, cx.where('cmdline_util', kfn), 'make_kwargs:use_channel', 'use_channel is %s' % show(v)[:60])
     rep.explanation = ('CLI tables extracted from the source on every run and compared with the spec table of the property: 33 add_argument calls -> (flags, dest, type, default); make_kwargs evaluated on all paths -> '
